@@ -229,6 +229,23 @@ fn run_f<F: PrimeField>(op: &str, a: &[Arg]) -> Vec<Arg> {
             let (x, y, k) = triple(&a[4]);
             sparse_out(&s.relabel(x, y, k))
         },
+        // wide sparse extensions (> 32 variables): only the stored entries are printed
+        "sparse_relabel_wide" => {
+            let s = sparse_in::<F>(a, 1);
+            let (x, y, k) = triple(&a[4]);
+            let r = s.relabel(x, y, k);
+            let nz: Vec<(usize, F)> = r.evaluations.iter().filter(|(_, v)| !v.is_zero()).map(|(i, v)| (*i, *v)).collect();
+            ok(vec![
+                vec![from_u64(r.num_vars() as u64)],
+                out_us(&nz.iter().map(|e| e.0).collect::<Vec<_>>()),
+                out_fs(&nz.iter().map(|e| e.1).collect::<Vec<_>>()),
+            ])
+        },
+        "sparse_eval_wide" => {
+            let s = sparse_in::<F>(a, 1);
+            let x = fes::<F>(&a[4]);
+            ok(vec![out_fs(&[s.evaluate(&x)])])
+        },
         "sparse_to_dense" => {
             let s = sparse_in::<F>(a, 1);
             dense_out(&s.to_dense_multilinear_extension())
